@@ -1,4 +1,5 @@
 import PegVerif.Proofs.PathMatches
+import PegVerif.Proofs.PathMatchesLR
 import PegVerif.Proofs.NonVacuity
 /-
   C02 – the returned tree holds exactly the matches on the successful path, in order.
@@ -74,6 +75,15 @@ theorem C02_override {env : Env} {u : Nat} {rec : PM.PRec} {r0 : Rule} {f : Fiel
     ∃ ms, rec.expr ⟨env.settings.skipWhitespace && !r0.flags.noSkipWs, [f]⟩ r0.definition s = some (.ok ms s') ∧
       shapeField [f] f (ms.filter (·.key == "_override")) = some v :=
   override_rule_value hget hname hstr h
+
+/-- the same for grammars with `@leftrec` rules in the class `LROk` (PathMatchesLR.lean): `PMLR` is the path-match
+    reference with the growth meaning of `@leftrec`; the returned tree is, node by node, the shaping of the matches on
+    the successful path (through the last growth iteration of every left-recursive rule) -/
+theorem C02_parse_leftrec (env : Env) (hp : PureHooks env.hooks) (hok : LROk env.g env.settings)
+    (rule : String) (inp : List UInt8) (u n : Nat) {v : Val} {s : St} {g : Global}
+    (h : parseAdvanced env n rule inp u = some (.ok v s, g)) :
+    ∃ m, PMLR.parse env u m rule inp = some (.ok v (Spec.clr s)) :=
+  C02_parseLR env hp hok rule inp u n h
 
 /-! ## non-vacuity (BEGIN) -/
 namespace C02_nv
